@@ -1,6 +1,6 @@
 (** C12 — the generated skeletons (coq/Gen/ConcText.v) against the model. *)
 From Coq Require Import ZArith List Bool.
-From SpyneV Require Import Base.Prelude C12.Model C12.Corr C12.Text Gen.ConcText.
+From SpyneV Require Import Base.Prelude C12.Model C12.Corr C12.Text C12.Writers Gen.ConcText.
 
 Lemma text_is_model_text :
   g_wsdl = text_wsdl Repaired /\ g_get = text_get /\ g_build = text_build /\
@@ -10,3 +10,6 @@ Proof. repeat split; reflexivity. Qed.
 
 Lemma text_paths : paths_ok Repaired g_wsdl g_attrs g_validate g_memo g_sort = true.
 Proof. vm_compute. reflexivity. Qed.
+
+Lemma state_writers_pinned : g_state_writers = state_writers_expected.
+Proof. reflexivity. Qed.
